@@ -363,21 +363,27 @@ TIES = {
     # code-level round trips: theorems whose statements mention only functions regenerated from /repo on this run
     "C01": [P_ + x for x in ["CodeXtea", "CodeSm4", "CodeCamellia", "CodeAria", "CodeMagma", "CodeBelt", "CodeDes", "CodeGift", "CodeSerpent",
                              "CodeAesFs64", "CodeAesFs32", "CodeAesNi", "CodeAesArmv8", "CodeCast6", "CodeThreefish", "CodeKuznyechik", "CodeKuznyechikSoft",
-                             "CodeSpeck", "CodeCast5", "CodeRc2"]],
+                             "CodeSpeck", "CodeCast5", "CodeRc2", "CodeKuznyechikSse2", "CodeKuznyechikNeon", "CodeBlowfish", "CodeRc5"]],
     "C02": [P_ + x for x in ["GenAesFs64Base", "GenAesFs64Ed128", "GenAesFs64Ed192", "GenAesFs64Ed256", "GenAesFs64Ed128c", "GenAesFs64Ed192c",
                              "GenAesFs64Ed256c", "GenAesFs64Ks128", "GenAesFs64Ks192", "GenAesFs64Ks256", "GenAesFs32", "GenAesFs32Keys",
                              "CodeAesFs64", "CodeAesFs32", "GenAesNi", "GenAesArmv8", "CodeAesNi", "CodeAesArmv8"]],
-    "C04": [P_ + x for x in ["GenAesNi", "GenAesArmv8", "CodeAesNi", "CodeAesArmv8"]],
+    "C04": [P_ + x for x in ["GenAesNi", "GenAesArmv8", "CodeAesNi", "CodeAesArmv8", "CodeKuznyechikSse2", "CodeKuznyechikNeon"]],
     "C17": [P_ + x for x in ["GenAesNi", "GenAesArmv8", "CodeAesNi", "CodeAesArmv8"]],
     "C05": [P_ + x for x in ["GenCipherDes", "GenKeysDes", "CodeDes"]],
     "C06": [P_ + x for x in ["GenCipherAria", "GenKeysAria", "GenCipherCamellia", "GenKeysCamellia", "GenCipherSm4", "GenKeysSm4",
                              "CodeAria", "CodeCamellia", "CodeSm4"]],
     "C07": [P_ + x for x in ["GenCipherMagma", "GenKeysMagma", "GenCipherBelt", "GenKeysBelt", "CodeMagma", "CodeBelt", "GenCipherKuznyechik", "GenKeysKuznyechik",
-                             "GenFuncsKuznyechik", "GenCipherKuznyechikSoft", "GenKeysKuznyechikSoft", "GenKuznyechikSoftTables", "CodeKuznyechik", "CodeKuznyechikSoft"]],
+                             "GenFuncsKuznyechik", "GenCipherKuznyechikSoft", "GenKeysKuznyechikSoft", "GenKuznyechikSoftTables", "CodeKuznyechik", "CodeKuznyechikSoft",
+                             "GenCipherKuznyechikSse2", "GenKeysKuznyechikSse2", "GenCipherKuznyechikNeon", "GenKeysKuznyechikNeon",
+                             "CodeKuznyechikSse2", "CodeKuznyechikNeon"]],
+    "C03": [P_ + x for x in ["CodeKuznyechikSse2", "CodeKuznyechikNeon", "CodeKuznyechik", "CodeKuznyechikSoft"]],
+    "C14": [P_ + x for x in ["GenCipherBlowfish", "CodeBlowfish"]],
+    "C18": [P_ + x for x in ["GenBeltWideKatA", "GenBeltWideKatB", "GenBeltWideKatC"]],
     "C08": [P_ + x for x in ["GenCipherSerpent", "GenKeysSerpent", "GenCipherCast6", "GenKeysCast6", "CodeSerpent", "CodeCast6", "GenFnTwofish"]],
-    "C09": [P_ + x for x in ["GenCipherCast5", "GenCipherRc2", "GenCipherXtea", "GenKeysXtea", "CodeXtea", "GenKeysCast5", "CodeCast5", "GenKeysRc2", "CodeRc2", "GenFnIdea", "GenCipherIdea", "GenKeysIdea", "CodeIdea"]],
+    "C09": [P_ + x for x in ["GenCipherCast5", "GenCipherRc2", "GenCipherXtea", "GenKeysXtea", "CodeXtea", "GenKeysCast5", "CodeCast5", "GenKeysRc2", "CodeRc2", "GenFnIdea", "GenCipherIdea", "GenKeysIdea", "CodeIdea",
+                             "GenCipherBlowfish", "CodeBlowfish"]],
     "C13": [P_ + x for x in ["GenFnWeak", "CodeWeak"]],
-    "C10": [P_ + x for x in ["GenCipherSpeck", "GenCipherThreefish", "GenKeysThreefish", "GenCipherGift", "GenKeysGift", "CodeGift", "GenKeysSpeck", "CodeSpeck", "CodeThreefish"]],
+    "C10": [P_ + x for x in ["GenCipherSpeck", "GenCipherThreefish", "GenKeysThreefish", "GenCipherGift", "GenKeysGift", "CodeGift", "GenKeysSpeck", "CodeSpeck", "CodeThreefish", "GenCipherRc5", "CodeRc5", "GenKeysRc5Kat"]],
 }
 
 
